@@ -140,9 +140,10 @@ def audit(prop_modules):
     rc, out = sh(["lake", "env", "lean", apath], cwd=LEAN, timeout=1800)
     # parse: "'name' depends on axioms: [a, b]" or "'name' does not depend on any axioms"
     found = {}
-    for m in re.finditer(r"'([^']+)' depends on axioms: \[([^\]]*)\]", out, re.S):
+    # (names may end in primes: `foo'` is printed as 'foo'')
+    for m in re.finditer(r"(?m)^(?:info: [^\n]*?: )?'([^\n]+)' depends on axioms: \[([^\]]*)\]", out):
         found[m.group(1)] = {a.strip() for a in m.group(2).replace("\n", " ").split(",") if a.strip()}
-    for m in re.finditer(r"'([^']+)' does not depend on any axioms", out):
+    for m in re.finditer(r"(?m)^(?:info: [^\n]*?: )?'([^\n]+)' does not depend on any axioms", out):
         found[m.group(1)] = set()
     for mod, n in names:
         if n not in found:
